@@ -869,6 +869,167 @@ def _enclosing_loops(tree: ast.AST):
     yield from rec(tree, [])
 
 
+def _vector_update_contradiction(f: FuncInfo, vec: str = 'self.id_manager.free_betas_values') -> tuple[ast.AST, str] | None:
+    """The single loop of the function that writes the vector of free parameters entry by entry, `for I, E in enumerate(SEQ): ... VEC[I] = W`
+    (VEC the vector or a local that is bound once to it; the write directly in the loop or under one `if` of the loop), decided from its
+    resolved structure.  Returns (node, what is wrong) when the loop contradicts one of two necessary conditions:
+      order: entry I of the vector belongs to the I-th *sorted name*; a value computed from the element E may be written at position I only
+             when SEQ runs in that order (free_betas.names / sorted(table)), not in the order of a dictionary (the table of expressions:
+             order of appearance in the formula; the dictionary of the caller: order of its keys) nor over the fixed parameters;
+      zero:  whether a value is given is a question of `is not None`; a truth test of the given value (`if V:`, `V or X`, `V if V else X`)
+             takes a given 0.0 for "not given".
+    None when there is no such contradiction or the shape is not one the rule understands (never an accusation on an unknown shape)."""
+    import copy
+
+    from .normal import as_loop
+
+    class Expand(ast.NodeTransformer):
+        """the normal form `VEC.update({I: W for I, E in SEQ if T})` of a loop of item assignments, read as that loop again"""
+        def visit_Expr(self, node):
+            v = node.value
+            if isinstance(v, ast.Call) and isinstance(v.func, ast.Attribute) and v.func.attr == 'update' and unparse(v.func.value) == vec:
+                lp_ = as_loop(node)
+                if lp_ is not None:
+                    return lp_
+            return node
+
+        def visit_If(self, node):
+            # `else: VEC[I] = VEC[I]` (what `VEC[I] = V if T else VEC[I]` stands for) writes nothing
+            self.generic_visit(node)
+
+            def noop(st):
+                return (isinstance(st, ast.Assign) and len(st.targets) == 1 and isinstance(st.targets[0], ast.Subscript) and unparse(st.targets[0].value) == vec
+                        and isinstance(st.targets[0].slice, ast.Name) and unparse(st.targets[0]) == unparse(st.value))
+
+            body, orelse = [s for s in node.body if not noop(s)], [s for s in node.orelse if not noop(s)]
+            if len(body) + len(orelse) == len(node.body) + len(node.orelse):
+                return node
+            if not body and not orelse:
+                return ast.copy_location(ast.Pass(), node)
+            if not body:
+                return ast.fix_missing_locations(ast.copy_location(ast.If(test=ast.UnaryOp(op=ast.Not(), operand=node.test), body=orelse, orelse=[]), node))
+            return ast.copy_location(ast.If(test=node.test, body=body, orelse=orelse), node)
+
+    func = Expand().visit(copy.deepcopy(f.node))
+    stores: dict[str, int] = {}
+    for x in ast.walk(func):
+        if isinstance(x, ast.Name) and isinstance(x.ctx, (ast.Store, ast.Del)):
+            stores[x.id] = stores.get(x.id, 0) + 1
+    params = set(f.params())
+    aliases = {st.targets[0].id for st in walk_no_nested(func)
+               if isinstance(st, ast.Assign) and len(st.targets) == 1 and isinstance(st.targets[0], ast.Name) and unparse(st.value) == vec
+               and stores.get(st.targets[0].id) == 1 and st.targets[0].id not in params}
+
+    def is_vec(e):
+        return unparse(e) == vec or (isinstance(e, ast.Name) and e.id in aliases)
+
+    def vec_targets(st):
+        ts = st.targets if isinstance(st, ast.Assign) else [st.target] if isinstance(st, (ast.AugAssign, ast.AnnAssign)) else []
+        return [t for t_ in ts for t in ([t_] if not isinstance(t_, (ast.Tuple, ast.List)) else t_.elts) if isinstance(t, ast.Subscript) and is_vec(t.value)]
+
+    writes = [st for st in ast.walk(func) if vec_targets(st)]
+    loops = [lp for lp in walk_no_nested(func) if isinstance(lp, ast.For) and any(st in writes for st in ast.walk(lp))]
+    if len(writes) != 1 or len(loops) != 1:
+        return None
+    w, lp = writes[0], loops[0]
+    # any other way of changing the vector (a call of one of its methods, it is handed to a function, rebound) makes the loop only part of the story
+    for x in ast.walk(func):
+        if (isinstance(x, ast.Attribute) and isinstance(x.ctx, ast.Store) and unparse(x) == vec) or (isinstance(x, ast.Call) and isinstance(x.func, ast.Attribute) and is_vec(x.func.value)):
+            return None
+    if not (isinstance(w, ast.Assign) and len(w.targets) == 1 and isinstance(w.targets[0], ast.Subscript)) or lp.orelse:
+        return None
+    it = lp.iter
+    if not (isinstance(it, ast.Call) and isinstance(it.func, ast.Name) and it.func.id == 'enumerate' and len(it.args) == 1 and not it.keywords):
+        return None
+    if not (isinstance(lp.target, ast.Tuple) and len(lp.target.elts) == 2 and isinstance(lp.target.elts[0], ast.Name)):
+        return None
+    counter = lp.target.elts[0].id
+    elem = {x.id for x in ast.walk(lp.target.elts[1]) if isinstance(x, ast.Name)}
+    if not elem or counter in elem or any(stores.get(n) != 1 for n in elem | {counter}) or (elem | {counter}) & params:
+        return None
+    idx = w.targets[0].slice
+    if not (isinstance(idx, ast.Name) and idx.id == counter):
+        return None
+    # where the write stands: directly in the loop, or under one `if` (no else) of the loop
+    test = None
+    if any(st is w for st in lp.body):
+        pass
+    else:
+        holder = [st for st in lp.body if isinstance(st, ast.If) and any(s is w for s in st.body)]
+        if len(holder) != 1 or holder[0].orelse:
+            return None
+        test = holder[0].test
+    # locals of the loop body that are bound once, by a plain assignment directly in the body
+    local_defs = {st.targets[0].id: st.value for st in lp.body
+                  if isinstance(st, ast.Assign) and len(st.targets) == 1 and isinstance(st.targets[0], ast.Name) and stores.get(st.targets[0].id) == 1 and st.targets[0].id not in params}
+    where = (f.file, w.lineno)
+    wtxt = unparse(w)
+
+    # ---- order
+    tainted = set(elem)
+    grew = True
+    while grew:
+        grew = False
+        for k, v in local_defs.items():
+            if k not in tainted and any(isinstance(x, ast.Name) and x.id in tainted for x in ast.walk(v)):
+                tainted.add(k)
+                grew = True
+    from_elem = any(isinstance(x, ast.Name) and x.id in tainted for x in ast.walk(w.value))
+    seq = _resolve(f, it.args[0])
+    od = _order_of(seq)
+    given = seq
+    while (isinstance(given, ast.Call) and not given.keywords and ((isinstance(given.func, ast.Name) and given.func.id in ('list', 'tuple') and len(given.args) == 1)
+                                                                or (isinstance(given.func, ast.Attribute) and given.func.attr in ('keys', 'values', 'items') and not given.args))):
+        given = given.args[0] if given.args else given.func.value
+    pos = f.positional_params()
+    if from_elem:
+        sq = unparse(it.args[0])
+        if od is not None and od[0] == 'dict':
+            return where, (f'`{wtxt}`: entry {counter} of free_betas_values is given a value taken from the {counter}-th element of {sq}, a dictionary that runs in the order in which the '
+                           f'parameters appear in the formulas; the vector is indexed by the sorted names self.id_manager.free_betas.names, so the values are permuted among the parameters')
+        if od is not None and od[2] != 'free':
+            return where, (f'`{wtxt}`: entry {counter} of free_betas_values is given a value taken from the {counter}-th element of {sq}, which lists the {od[2]} parameters; '
+                           f'the vector is indexed by the sorted names of the free parameters self.id_manager.free_betas.names')
+        if isinstance(given, ast.Name) and given.id in params and given.id in pos[1:] and stores.get(given.id) is None:
+            return where, (f'`{wtxt}`: entry {counter} of free_betas_values is given a value taken from the {counter}-th entry of the dictionary handed in by the caller ({sq}); '
+                           f'the vector is indexed by the sorted names self.id_manager.free_betas.names')
+
+    # ---- zero
+    def is_lookup(e):
+        """<parameter of the function>.get(<name>) / .get(<name>, None): the value the caller gives for a name, None when it gives none"""
+        return (isinstance(e, ast.Call) and isinstance(e.func, ast.Attribute) and e.func.attr == 'get' and isinstance(e.func.value, ast.Name) and e.func.value.id in pos[1:]
+                and stores.get(e.func.value.id) is None and not e.keywords
+                and (len(e.args) == 1 or (len(e.args) == 2 and isinstance(e.args[1], ast.Constant) and e.args[1].value is None)))
+
+    given_names = {k for k, v in local_defs.items() if is_lookup(v)}
+
+    def is_given(e):
+        return is_lookup(e) or (isinstance(e, ast.Name) and e.id in given_names)
+
+    def truth(t, e):
+        """what test t says about the given value e (a local, or the lookup itself spelt again)"""
+        if isinstance(e, ast.Name):
+            return _none_guard(t, e.id)
+        if unparse(t) == unparse(e):
+            return 'truthy'
+        if isinstance(t, ast.UnaryOp) and isinstance(t.op, ast.Not) and unparse(t.operand) == unparse(e):
+            return 'falsy'
+        return None
+
+    val = w.value
+    if isinstance(val, ast.Name) and val.id in local_defs and val.id not in given_names:
+        val = local_defs[val.id]
+    zero = 'a value 0.0 given for a parameter is not written to free_betas_values (the vector the optimiser starts from keeps the previous value); whether a value is given must be tested with `is not None`'
+    if isinstance(val, ast.BoolOp) and isinstance(val.op, ast.Or) and is_given(val.values[0]):
+        return where, f'`{wtxt}`: `{unparse(val)}` takes a given value for absent when it is falsy: {zero}'
+    if isinstance(val, ast.IfExp):
+        if (is_given(val.body) and truth(val.test, val.body) == 'truthy') or (is_given(val.orelse) and truth(val.test, val.orelse) == 'falsy'):
+            return where, f'`{wtxt}`: the given value is kept only when `{unparse(val.test)}`, a truth test: {zero}'
+    if test is not None and is_given(val) and truth(test, val) == 'truthy':
+        return where, f'`{wtxt}` is executed only when `{unparse(test)}`, a truth test of the given value: {zero}'
+    return None
+
+
 def ord_pack(ctx: Ctx, rule: str) -> None:
     prog = ctx.prog
     # O1 / O2 over the whole package
@@ -1129,7 +1290,13 @@ for _I, _N in enumerate(__SEQ):
         if same:
             ctx.add(rule, 'BIOGEME.change_init_values', True, f, 'free_betas_values[i] = betas[name] for (i, name) in enumerate(free_betas.names)')
         else:
-            ctx.add(rule, 'BIOGEME.change_init_values', False if why else None, f, why or f'update of free_betas_values is not in the expected form: {unparse(loops[0])[:150] if loops else "missing"}',
+            at = f
+            if why is None:
+                # any other spelling of the loop: decided from its resolved structure (which sequence numbers the entries, what is written, under which test)
+                found = _vector_update_contradiction(f)
+                if found is not None:
+                    at, why = found
+            ctx.add(rule, 'BIOGEME.change_init_values', False if why else None, at, why or f'update of free_betas_values is not in the expected form: {unparse(loops[0])[:150] if loops else "missing"}',
                     (unparse(loops[0]) if loops else 'missing'), positive=bool(why))
     f = B.methods['beta_values_dict_to_list']
     ok = has(f.node, """
